@@ -230,5 +230,10 @@ example : wfProg (.node "apply" [.node "var" [.atom "f"], .node "args" [], .node
 example : comments [⟨"WHITESPACE", " "⟩, ⟨"SINGLE_LINE_HASH_COMMENT", "#  a  b"⟩, ⟨"IDENT", "x"⟩,
       ⟨"MULTI_LINE_COMMENT", "/* c\n   d */"⟩]
     = [("SINGLE_LINE_HASH_COMMENT", ["a", "b"]), ("MULTI_LINE_COMMENT", ["c", "d"])] := by decide
+/-- one marker is removed, the one of the comment's kind: what the formatter prints for `#//x`,
+    `/*#x*/`, `////x` and the comments without text `/**/`, `/***/` has the same words -/
+example : commentWords "#//x" = commentWords "# //x" ∧ commentWords "/*#x*/" = commentWords "/* #x */"
+    ∧ commentWords "////x" = commentWords "// //x" ∧ commentWords "/**/" = commentWords "/* */"
+    ∧ commentWords "/***/" = commentWords "/** */" ∧ commentWords "#//x" ≠ commentWords "# x" := by decide
 
 end JrsVerif.Props.C19
